@@ -67,6 +67,7 @@ func (w *Writer) Marshal(data any) ([]byte, error) {
 // preserved past a second invocation then the buffer should be copied.
 func (w *Writer) Write(wr io.Writer, data any) (err error) {
 	w.w = wr
+	defer func() { w.w = nil }()
 	_, err = w.encode(data)
 
 	return
